@@ -449,6 +449,9 @@ func cmdCheck(args []string) int {
 	totalViol := 0
 	replays := 0
 	cexDir := "/verif/evidence/cex"
+	if *evid != "" {
+		cexDir = filepath.Join(filepath.Dir(mustAbs(*evid)), "cex")
+	}
 	os.MkdirAll(cexDir, 0o755)
 
 	for _, es := range entries {
